@@ -32,6 +32,7 @@ fi
 pkg=$(grep -m1 '^package ' "$DEMO" | awk '{print $2}')
 case "$pkg" in
   cmd|cmd_test) dir=cmd;;
+  compattest|compattest_test) dir=internal/compattest;;
   *) dir=.;;
 esac
 suite=fail
